@@ -80,6 +80,7 @@ def run_case(ctx, mr, case):
                      f'DPFS level-3 file: Coq model and implementation differ for seek({reads[k][0]}); read({reads[k][1]})')
         ctx.stat('dpfs_model_reads', len(reads))
     c.close()
+    sc.heal_neighbour_case(ctx, case, rng, img, info, payloads, geom)
     # 3. corruption x read history
     for _ in range(case['corruptions']):
         pi = rng.randrange(len(info['partitions']))
